@@ -1124,13 +1124,11 @@ func renderVariableString(text string, ctx *RenderContext, w io.Writer) error {
 					}
 				}
 
-				if ctx.env != nil {
-					varValue, err = ctx.ApplyFilter(filterName, baseValue, filterArgs...)
-					if err != nil {
-						return err
-					}
-				} else {
-					varValue = baseValue
+				// ApplyFilter copes with a context that has no environment (built-in escape) and
+				// reports every other filter as unknown; skipping the filter would emit the raw value
+				varValue, err = ctx.ApplyFilter(filterName, baseValue, filterArgs...)
+				if err != nil {
+					return err
 				}
 			} else {
 				varValue, _ = ctx.GetVariable(varName)
